@@ -560,14 +560,41 @@ pub fn obs_sanall(b: &ChessBoard) -> String {
             (s, (dup as u8).to_string())
         }
     };
-    let illegal = match first_illegal(b) {
+    let mut illegal = match first_illegal(b) {
         None => "ok".to_string(), // no rejected value at all: nothing to observe, cannot be `err`
         Some(m) => match catch(|| MovePropertiesOnBoard::new(&m, b).is_ok()) {
             None => "panic".to_string(),
             Some(true) => "ok".to_string(),
-            Some(false) => "err".to_string(),
+            Some(false) => {
+                // the public `get_move_ambiguity_type` asked directly about the same illegal move must refuse it too
+                match m {
+                    BoardMove::MovePiece(pm) => match catch(|| b.get_move_ambiguity_type(&pm).is_ok()) {
+                        None => "panic-amb".to_string(),
+                        Some(true) => "ok-amb".to_string(),
+                        Some(false) => "err".to_string(),
+                    },
+                    _ => "err".to_string(),
+                }
+            }
         },
     };
+    // ... and asked directly about a LEGAL king move it answers `Neither` (MovePropertiesOnBoard::new never asks it that)
+    if illegal == "err" {
+        if let Some(ms) = catch(|| b.get_legal_moves()) {
+            for m in ms.iter() {
+                if let BoardMove::MovePiece(pm) = m {
+                    if pm.get_piece_type() == PieceType::King {
+                        match catch(|| b.get_move_ambiguity_type(pm)) {
+                            Some(Ok(DisplayAmbiguityType::Neither)) => {}
+                            None => illegal = "panic-kingamb".to_string(),
+                            _ => illegal = "bad-kingamb".to_string(),
+                        }
+                        break;
+                    }
+                }
+            }
+        }
+    }
     format!("sans={sans} dup={dup} illegal={illegal}")
 }
 
@@ -585,7 +612,21 @@ pub fn obs_bb(v: u64) -> String {
     let lo = g(|| sq_opt(BitBoard::new(v).last_bit_square()));
     let hi = g(|| sq_opt(BitBoard::new(v).first_bit_square()));
     let grid = g(|| hex(&format!("{}", BitBoard::new(v))));
-    format!("list={list} cnt={cnt} lo={lo} hi={hi} grid={grid}")
+    // the operator impls: & | ^ ! * and the assigning forms, against two fixed masks
+    let alg = g(|| {
+        let (x, c, d) = (BitBoard::new(v), BitBoard::new(0x00ff_00f0_0f0f_3c5a), BitBoard::new(0x8100_0042_2400_0081));
+        let a = (x & c) ^ (x | d) ^ !x ^ (x * BitBoard::new(3));
+        let mut y = x;
+        y &= c;
+        let mut z = x;
+        z |= d;
+        let mut w = !x;
+        w ^= x * BitBoard::new(3);
+        let b2 = y ^ z ^ w;
+        format!("{}{}", hx(a.bits()), if a == b2 { "" } else { "!assign" })
+    });
+    let dbg = g(|| hex(&format!("{:?}", BitBoard::new(v))));
+    format!("list={list} cnt={cnt} lo={lo} hi={hi} grid={grid} alg={alg} dbg={dbg}")
 }
 
 pub fn obs_render(b: &ChessBoard, flag: bool) -> String {
